@@ -139,6 +139,12 @@ tpl("format/arg1", [I(2)], lambda s: ("format", "a@b@", [I(1), s[0]]))
 tpl("format/single-paren", [I(1)], lambda s: ("format", "<@>", [s[0]]))
 tpl("format/escaped", [I(1)], lambda s: ("format", "\\@@", [s[0]]))
 tpl("format/count-mismatch", [I(1)], lambda s: ("format", "@ @", [s[0]]))
+# backslashes in a template: an escaped backslash (two in the template's value) is one backslash and ends the escape
+tpl("format/escaped-backslash", [I(1)], lambda s: ("format", "a\\\\b @", [s[0]]))
+tpl("format/escaped-backslash-before-placeholder", [I(1)], lambda s: ("format", "\\\\@", [s[0]]))
+tpl("format/escaped-backslash-then-escaped-at", [I(1)], lambda s: ("format", "\\\\\\@ @", [s[0]]))
+tpl("format/backslash-before-letter", [I(1)], lambda s: ("format", "\\n@", [s[0]]))
+tpl("formatx/backslash-in-text", [I(1)], lambda s: ("formatx", ["a\\b", s[0], "\\"], I(0)))
 tpl("formatx/item", [I(1)], lambda s: ("formatx", ["<", SYM("item"), ">"], s[0]))
 tpl("formatx/expr", [I(1)], lambda s: ("formatx", ["v=", s[0], ";", B(".", SYM("item"), SYM("a"))], T(("a", I(1)))))
 tpl("range/start", [I(0)], lambda s: ("range", s[0], None, I(3)))
